@@ -20,11 +20,14 @@ NA = {
 PENDING = {
 "C06":"Claimed in DESIGN.md; check not built yet in this commit (seeded interleaving of logical clients over a handle tree).",
 "C07":"Claimed in DESIGN.md; check not built yet in this commit (seeded goroutine scheduler + race detector).",
-"C13":"Claimed in DESIGN.md; check not built yet in this commit (fault enumeration at hook invocations).",
 "C14":"Claimed in DESIGN.md; check not built yet in this commit (seeded goroutine scheduler over the prepared-statement cache).",
 "C18":"Claimed in DESIGN.md; check not built yet in this commit (context tag invariant + cancellation at every call index).",
 }
 CHECKS = {
+"C13": dict(cat="fault_enumeration", ref="DESIGN.md section 7, C13",
+  text="Seeded create/save/update/delete/query operations over record graphs with recording hooks on every model run on the real stack, fault-free (exactly-once and order per in-memory record, statement between before- and after-hooks, all hooks on the operation's own transaction, hook-set values stored, marker rows written through the hook's tx, silence under SkipHooks/UpdateColumn, AfterFind once per delivered row) and once per hook invocation with that invocation failing (error returned, nothing of a later phase runs, database unchanged, no leak). Sampled over operations, exhaustive over hook invocations per operation in the thorough tier.",
+  note="Trusted: record identity = address the hook receives; AfterFind accounting uses rows delivered by the driver; records sharing a key with another record of the same value are exempt from the must-be-visited rule (gorm saves one of them, which one is unspecified).",
+  tech="deterministic simulation: hook-invocation fault enumeration with event-log oracle"),
 "C04": dict(cat="fault_enumeration", ref="DESIGN.md section 7, C04",
   text="Seeded trees of Transaction blocks (and manual Begin/SavePoint/RollbackTo/Commit scripts) run in lock-step with a snapshot-stack reference model on the real gorm/database/sql/SQLite stack, fault-free and once per driver call (BEGIN, SAVEPOINT, ROLLBACK TO, statements, COMMIT, Prepare) with that call failing; thorough adds fault pairs. Checks durable table contents, read-backs inside blocks, identity of propagated errors/panics, usability of the enclosing transaction and leaked connections. Sampled over programs, exhaustive over single fault sites per program in the thorough tier.",
   note="Trusted: SQLite savepoint semantics as the reference for what a scope undoes; the dialector shim that reports SAVEPOINT/ROLLBACK TO errors; the narrow relaxations listed in DESIGN.md (refused ROLLBACK TO, lost COMMIT acknowledgement).",
